@@ -437,9 +437,14 @@ def _tensor_spaces(thorough):
            ts(2, 'int64', 'const', 2.0),
            # half precision: its complex counterpart (complex64) has another real counterpart
            ts(2, 'float16'), ts(2, 'float16', 'const', 2.0),
+           # axes of length 1 in every position
+           ts((3, 1)), ts((1, 3)), ts((2, 1, 3)),
            ts(2, wkind='const', warg=2.0 + 1e-9), ts(2, exponent=2.0 + 1e-9),
            ts(2, wkind='const', warg=2.0 + 1e-6), ts(2, exponent=1.0 + 1e-6)]
     if thorough:
+        out += [ts((1, 1)), ts((1, 2, 3)), ts((2, 3, 1)), ts((1, 1, 3)), ts((1, 3, 1)),
+                ts((3, 1, 1)), ts((3, 1), 'float32'), ts((1, 3), 'complex128'),
+                ts((3, 1), wkind='const', warg=2.0)]
         out += [ts(4), ts((1, 2)), ts((2, 1)), ts((2, 2, 2)), ts((0, 2)),
                 ts(2, 'uint8'), ts(2, 'S2'), ts(3, 'float32'), ts(3, 'complex128'),
                 ts((2, 3), 'float32'), ts(2, exponent=1.5), ts(2, exponent=2),
@@ -486,6 +491,9 @@ def _discr_spaces(thorough):
            ('DS', ('Part', ('IP', -1, 1), ('Grid', (-0.5, 0, 0.5))),
             ('TS', 3, 'float64', None, None, 2.0), None)]
     out.append(ud(0, 1, 2, dtype='float16'))
+    out += [ud((0, 0), (1, 1), (4, 1)), ud((0, 0), (1, 1), (1, 4))]    # axis of length 1
+    if thorough:
+        out += [ud((0, 0, 0), (1, 1, 1), (2, 1, 2)), ud((0, 0), (1, 1), (1, 1))]
     # same tspace, partitions that differ by a tiny amount in one node / one end point
     t5 = ('TS', 5, 'float64', None, None, 2.0)
     ip = ('IP', -0.5, 4.5)
@@ -542,7 +550,10 @@ def _product_spaces(thorough):
 
     def pw(base, n, wkind=None, warg=None, exponent=2.0):
         return ('PW', base, n, wkind, warg, exponent)
+    r31 = ('TS', (3, 1), 'float64', None, None, 2.0)
+    r13 = ('TS', (1, 3), 'float64', None, None, 2.0)
     out = [pw(r2, 2), ps([r2, r2]), pw(r2, 3), pw(r2, 1), pw(r1, 2), ps([r2, r3]), ps([r3, r2]),
+           pw(r31, 2), ps([r31, r13]),                      # factors with an axis of length 1
            ps([r2, r2w]), pw(r2w, 2), pw(r2f, 2), pw(c2, 2), pw(ud2, 2),
            pw(r2, 2, 'const', 1.0), pw(r2, 2, 'const', 2.0), pw(r2, 2, 'const', 2),
            pw(r2, 2, 'arr', 'A2'), pw(r2, 2, 'arr', 'A2c'), pw(r2, 2, 'arr', 'B2'),
@@ -772,6 +783,34 @@ def counterpart(dtype, which):
 
 # ------------------------------------------------------------------------------------------
 # values
+
+def near_miss_shapes(sh):
+    """Shapes with the same number of entries as ``sh`` that differ from it only in WHERE the
+    axes of length 1 are, in the NUMBER of leading axes of length 1, or by a permutation of the
+    axes (simplest first, ``sh`` itself excluded)."""
+    sh = tuple(sh)
+    cands = []
+    if sh:
+        cands += sorted(set(itertools.permutations(sh)))
+        squeezed = tuple(n for n in sh if n != 1)
+        cands.append(squeezed)
+        lead = sh
+        while lead and lead[0] == 1:
+            lead = lead[1:]
+            cands.append(lead)
+        # singleton axes moved to every position of the squeezed shape
+        k = len(sh) - len(squeezed)
+        if 0 < k <= 2:
+            for pos in itertools.combinations(range(len(sh)), k):
+                it = iter(squeezed)
+                cands.append(tuple(1 if i in pos else next(it) for i in range(len(sh))))
+    cands += [(1,) + sh, (1, 1) + sh, sh + (1,)]
+    out = []
+    for c in cands:
+        if c != sh and c not in out:
+            out.append(c)
+    return out
+
 
 def values(shape, dtype, salt=0):
     """Deterministic dyadic test data of the given shape and dtype (all entries distinct)."""
